@@ -123,3 +123,14 @@ package nack
 //@   requires nack: nack != nil
 //@   modifies *
 //@   ensures unbound_stream_produces_nothing: !has(old(n.streams), nack.MediaSSRC) ==> calls("Range") == 0
+//@
+//@ # ---- the generator's RTP reader (properties C01, C02): transparent, never indexes outside the bytes read,
+//@ # and a packet whose read failed is not entered into the receive log
+//@ func (*GeneratorInterceptor).BindRemoteStream$1
+//@   requires log: receiveLog != nil && inv(receiveLog)
+//@   modifies *
+//@   ensures read_once: calls("reader.Read") == 1 && callarg("reader.Read", 0) == b && callarg("reader.Read", 1) == a
+//@   ensures read_error_returned: callres("reader.Read", 2) != nil ==> result0 == 0 && result2 == callres("reader.Read", 2) && calls("add") == 0
+//@   ensures same_length: result2 == nil ==> result0 == callres("reader.Read", 0)
+//@   ensures accounted_once: calls("add") <= 1 && (result2 == nil ==> calls("add") == 1)
+//@   ensures log_inv: inv(receiveLog)
